@@ -28,6 +28,11 @@ func c12(c *core.Ctx) string {
 	muxBuildChecks(c, "R-C12-2", "")
 	c12Key(c)
 	c12Fresh(c)
+	// the chain checked on a hit must decide like the single filters of the uncached walk (shared with R-C05-1)
+	c.Alias("R-C05-1", "R-C12-6")
+	c.Rule("R-C05-1", "the filter chain consulted on a cache hit is the plain conjunction of its filters' verdicts (no verdict of its own, e.g. for unparsable addresses): cached and uncached paths agree (shared with R-C05-1)")
+	c05Conj(c)
+	c.Alias("R-C05-1", "")
 	return "Information-flow audit of the route cache: the cached decision must be a function of the key (host, method, path) and of facts re-validated on a hit. Decided path-sensitively over all paths of muxInstance.search (disjunctive states correlate the mismatch flags with the dependence events), plus key construction and cache freshness. Not decided: ARC eviction, correctness of the uncached search (C01/C05)."
 }
 
